@@ -105,7 +105,15 @@ CallRows(c, r, rows) ==
       [] c.f = "chainself" -> rows \o rows
       [] OTHER -> rows
 
+\* user-defined operations of the extension API (RA_Ops!Cust), applied in iteration engines only; a
+\* configuration switches them on (the final call is then backtracked past them on the strength of their flags)
+CustomOn == FALSE
+CustBaseCalls(r) ==
+    IF CustomOn /\ KindOf(Eng(r)) = "iter"
+    THEN {[f |-> "un", op |-> c, opts |-> DefaultOpts] : c \in {x \in {Cust(f) : f \in CustNames} : ReqOp(x) \subseteq Cols(r)}}
+    ELSE {}
 BaseCalls(r, h) ==
+    CustBaseCalls(r) \cup
     {[f |-> "un", op |-> op, opts |-> DefaultOpts] :
         op \in {o \in BaseOps : BeginErr(o, Cols(r)) = "none" /\ ~(o.o = "calc" /\ NCalcs(h) > 0)}}
       \cup {[f |-> "xfer", dest |-> e] : e \in Engines}
